@@ -75,7 +75,7 @@ def main():
             if res["suite_with_patch"] != "pass":
                 print(out[-3000:])
         # our check against it
-        env = dict(ENV, VERIF_REPO=W)
+        env = dict(ENV, VERIF_REPO=W, VERIF_EVIDENCE_DIR="/verif/out/mutant-evidence")
         shutil.rmtree(os.path.join(W, "SEED"))
         t0 = time.time()
         p = subprocess.run(["/verif/run.py", pid, "--tier", "quick"], cwd="/verif", env=env, stdout=subprocess.PIPE, stderr=subprocess.STDOUT, text=True)
